@@ -1342,6 +1342,12 @@ class URL:
         name = PATH_QUOTER(name)
         if name in (".", ".."):
             raise ValueError(". and .. values are forbidden")
+        return self._with_raw_name(name, keep_query, keep_fragment)
+
+    def _with_raw_name(
+        self, name: str, keep_query: bool, keep_fragment: bool
+    ) -> "URL":
+        """Replace the last path segment with an already encoded name."""
         parts = list(self.raw_parts)
         if netloc := self._netloc:
             if len(parts) == 1:
@@ -1378,10 +1384,15 @@ class URL:
         name = self.raw_name
         if not name:
             raise ValueError(f"{self!r} has an empty name")
+        if "/" in suffix:
+            raise ValueError("Slash in name is not allowed")
         old_suffix = self.raw_suffix
+        # The existing name is already encoded: only the new suffix is quoted.
+        suffix = PATH_QUOTER(suffix)
         name = name + suffix if not old_suffix else name[: -len(old_suffix)] + suffix
-
-        return self.with_name(name, keep_query=keep_query, keep_fragment=keep_fragment)
+        if name in (".", ".."):
+            raise ValueError(". and .. values are forbidden")
+        return self._with_raw_name(name, keep_query, keep_fragment)
 
     def join(self, url: "URL") -> "URL":
         """Join URLs
